@@ -412,9 +412,15 @@ def _scene_setup(name, conditioned):
         import scenic
 
         sc = scenic.scenarioFromString(SCENE_PROGRAMS[name], mode2D=True)
+        def warm(scene):
+            try:  # warm-up only: a failure here is found (and reported as a violation) by the exploration itself
+                sc.sceneFromBytes(sc.sceneToBytes(scene))
+            except Exception:
+                pass
+
         for _ in range(2):
             scene, _n = sc.generate(maxIterations=50, verbosity=0)
-            sc.sceneFromBytes(sc.sceneToBytes(scene))
+            warm(scene)
         if conditioned:
             params = {}
             for p, v in sc.params.items():
@@ -422,7 +428,7 @@ def _scene_setup(name, conditioned):
                 break
             sc.conditionOn(scene=scene, objects=(len(sc.objects) - 1,), params=params)
             scene, _n = sc.generate(maxIterations=50, verbosity=0)
-            sc.sceneFromBytes(sc.sceneToBytes(scene))
+            warm(scene)
         _SCENES[(name, conditioned)] = sc
 
     return s
